@@ -54,15 +54,19 @@ class ExecutionContext:
             return CreateDimension(list(varType.Size))
 
     def __CreatePrimitiveInstance(self, primitiveType: LinearIR.Type):
+        def Zero(scalarType):
+            return 0.0 if isinstance(scalarType, LinearIR.FloatType) else 0
+
         match primitiveType.Kind:
             case LinearIR.TypeKind.Vector:
-                return [0] * primitiveType.Size
+                return [Zero(primitiveType.ElementType)] * primitiveType.Size
             case LinearIR.TypeKind.Matrix:
                 return [
-                    [0] * primitiveType.ColumnCount
+                    [Zero(primitiveType.ElementType)]
+                    * primitiveType.ColumnCount
                 ] * primitiveType.RowCount
             case LinearIR.TypeKind.Scalar:
-                return 0
+                return Zero(primitiveType)
 
         raise Exception("Cannot create primitive instance")
 
